@@ -138,7 +138,7 @@ def enum_core(tier):
             yield {'s': ''.join(t)}
 
 
-ALPHA = ['\x1b', '[', '0', '1', ';', '?', ' ', 'm', 'A', 'H', 'J', '~', '@', 'x', 'é', '\n', '\x1b[', '\x1b[', '{', '}', '|', '`', '\\', '%']
+ALPHA = ['\x1b', '[', '0', '1', ';', '?', ' ', 'm', 'A', 'H', 'J', '~', '@', 'x', 'é', '\n', '\x1b[', '\x1b[', '{', '}', '|', '`', '\\', '%', '\x9b', '\x9b', '\x9b1', '\x9d', '\x1b]', '\x90']
 
 
 def strat_free():
@@ -149,7 +149,7 @@ def strat_tokens():
     body = st.text(alphabet='0123456789;:?<=> !"', max_size=8)
     final = st.sampled_from(list('mmmAHJK~@[x_{}|`\\^'))
     tok = st.one_of(
-        st.text(alphabet='ab[\x1bm1;é\n ', max_size=5),
+        st.text(alphabet='ab[\x1bm1;é\n \x9b', max_size=5),
         st.tuples(body, final).map(lambda t: '\x1b[' + t[0] + t[1]),
         st.tuples(body, final).map(lambda t: '\x1b[' + t[0] + t[1]),
     )
